@@ -53,3 +53,12 @@ Example C02_empty_unknown_data_changes :
               ans := [{| rname := []; rclass := IN; rttl := 0; rcf := false; rdata_of := RD_null 4242 [] |}] |} in
   parse_packet (enc_packet p) <> Ok p.
 Proof. vm_compute. discriminate. Qed.
+
+(* the hypothesis is decidable: a boolean version, proved sound, is evaluated by the check on every packet it exercises
+   (evidence field hypothesis_wf_packetb_true) *)
+Require Import SD.WfBool.
+Theorem C02_hypothesis_decidable : forall p, wf_packetb p = true -> wf_packet p.
+Proof. exact wf_packetb_sound. Qed.
+Print Assumptions C02_hypothesis_decidable.
+Example C02_sample_wf : wf_packetb C02_sample = true.
+Proof. vm_compute. reflexivity. Qed.
